@@ -16,7 +16,7 @@ RULE = ("a FakeBLE object on a simulated radio; a case = (MAC form, name None/st
         "len_available() and the ValueError boundary are compared with the decoded packet. "
         "Non-trivial: a packet was decoded or a rejection observed; distinct = (name length/type, "
         "pa flag/level, chunk lengths, form, channel history).")
-RULE += (" Later rounds added: the MAC as assigned (ints with zero upper bytes; either byte order), repeated advertisements with the same chunk objects and the TX power changed in between, another object setting its own static payload length in its block, the BLE object's attributes read between blocks, the public CRC helper used with another polynomial first.")
+RULE += (" Later rounds added: the MAC as assigned (ints with zero upper bytes; either byte order), repeated advertisements with the same chunk objects and the TX power changed in between, another object setting its own static payload length in its block, the BLE object's attributes read between blocks, the public CRC helper used with another polynomial first, a captured advertisement (of the tuned or another BLE channel) examined with available() before advertising.")
 REQUIRED = {"decoded_by_phone": 800, "fields_match": 800, "len_available": 800,
             "valueerror_boundary": 300, "channel_histories": 300}
 BUDGET = {"quick": 480, "thorough": 900}
@@ -43,6 +43,15 @@ def gen_cases(ctx):
                 # length of its own), and whether the application looks at the BLE object's
                 # attributes before it re-enters that object's block
                 h += [rng2.choice([None, 8, 20, 32]), rng2.random() < 0.5]
+        if rng2.random() < 0.2:
+            # the beacon also listens: a valid advertisement captured on another BLE channel (before
+            # the last hop) or on the tuned one is still in its RX FIFO and is looked at now -
+            # often as the very last thing before it advertises
+            ev = ["rx_captured", rng2.choice([0, 1, 2]), rng2.randrange(1 << 16)]
+            if rng2.random() < 0.6:
+                hist.append(ev)
+            else:
+                hist.insert(rng2.randrange(len(hist) + 1), ev)
         if rng2.random() < 0.15:
             # the module's public CRC helper used for something else first (another polynomial)
             hist.insert(rng2.randrange(len(hist) + 1), ["crc_other", rng2.choice([0x5B06, 0x1021, 0x864CFB]),
@@ -148,6 +157,20 @@ def run_case(ctx, case):
                     ble.channel = h[1]
                 except ValueError:
                     pass
+            elif h[0] == "rx_captured":
+                cur = {2: 37, 26: 38, 80: 39}.get(radio.r[5])
+                if cur is not None:
+                    chidx = 37 + (cur - 37 + h[1]) % 3
+                    mac2 = bytes((h[2] >> (i % 2 * 8)) & 0xFF ^ (i * 29) for i in range(6))
+                    radio.inject_rx(0, ble_ref.encode(mac2, [(1, b"\x05"), ble_ref.battery_ad(h[2] & 0xFF)], chidx))
+                    try:
+                        if ble.available():
+                            ble.read()
+                    except Exception as e:  # noqa: BLE001
+                        ctx.violation("available-raises/%s" % type(e).__name__, repr(e), case)
+                        return
+                    radio.rx_fifo.clear()
+                    ctx.count("captured_frames_examined_%s" % ("on_the_tuned_channel" if h[1] == 0 else "from_another_channel"))
             elif h[0] == "crc_other":
                 import random as _r
                 buf = bytes(_r.Random(h[2]).randrange(256) for _ in range(40))
